@@ -2,12 +2,13 @@
 From Bifrost Require Import Lib.Base Lib.Varint Lib.Chunk Frame.Model.
 
 (* ---- C07 ---- *)
-(* observed class: 0 accepted, 1 io.EOF, 2 any other readStreamEstablishHeader
+(* de: the stream reports its end together with the last bytes.
+   observed class: 0 accepted, 1 io.EOF, 2 any other readStreamEstablishHeader
    error, 7 ErrEmptyProtocolID, 8 ErrInvalidProtocolID, 99 panic *)
 Inductive c07_case :=
 | Marsh (pid out : bytes)
-| Hdr (chunks : list nat) (data : bytes) (cls : nat) (pid rest : bytes)
-| Disp (chunks : list nat) (local remote data : bytes) (dispatched : bool) (pid l r rest : bytes).
+| Hdr (de : bool) (chunks : list nat) (data : bytes) (cls : nat) (pid rest : bytes)
+| Disp (de : bool) (chunks : list nat) (local remote data : bytes) (dispatched : bool) (pid l r rest : bytes).
 
 Definition coarse07 (k : nat) : nat :=
   if (k =? E_EOF)%nat then 1%nat
@@ -18,14 +19,14 @@ Definition coarse07 (k : nat) : nat :=
 Definition c07_agree (c : c07_case) : bool :=
   match c with
   | Marsh pid out => bytes_eqb (marshal_header pid) out
-  | Hdr ch data cls pid rest =>
-      match handle_incoming [] [] (ch, data) with
+  | Hdr de ch data cls pid rest =>
+      match handle_incoming_de de [] [] (ch, data) with
       | Dispatch p _ _ r => (cls =? 0)%nat && bytes_eqb p pid && bytes_eqb r rest
       | Closed k => (cls =? coarse07 k)%nat
       | HPanic => (cls =? 99)%nat
       end
-  | Disp ch local remote data d pid l r rest =>
-      match handle_incoming local remote (ch, data) with
+  | Disp de ch local remote data d pid l r rest =>
+      match handle_incoming_de de local remote (ch, data) with
       | Dispatch p l' r' rs => d && bytes_eqb p pid && bytes_eqb l' l && bytes_eqb r' r && bytes_eqb rs rest
       | Closed _ => negb d
       | HPanic => false
